@@ -35,7 +35,7 @@ COVERS = (_M + "udpserializer:UDPMessageSerializer.serialize", _M + "udpserializ
 INT_RANGE = {
     MsgType.MVT_U8: (0, 2**8 - 1), MsgType.MVT_U16: (0, 2**16 - 1), MsgType.MVT_U32: (0, 2**32 - 1),
     MsgType.MVT_S8: (-2**7, 2**7 - 1), MsgType.MVT_S16: (-2**15, 2**15 - 1), MsgType.MVT_S32: (-2**31, 2**31 - 1),
-    MsgType.MVT_BOOL: (0, 1), MsgType.MVT_IP_PORT: (0, 2**16 - 1),
+    MsgType.MVT_BOOL: (0, 255), MsgType.MVT_IP_PORT: (0, 2**16 - 1),
     # 64-bit: catalogue base + symbolic low byte (see C08: z3 does not decide the full 8-byte identity in budget)
     MsgType.MVT_U64: (0, 256 * 8 - 1), MsgType.MVT_S64: (0, 256 * 8 - 1),
 }
